@@ -32,6 +32,7 @@ type Contract struct {
 	Props    []string // properties this contract serves (tags)
 	IterEns  map[int][]Clause
 	last     *Clause
+	Generated bool
 }
 
 type Clause struct {
@@ -39,6 +40,7 @@ type Clause struct {
 	Tags []string // property ids, e.g. C06
 	Line int
 	Name string
+	Family string // obligation family when not POST (e.g. COPY)
 }
 
 type SpecFn struct {
@@ -69,6 +71,7 @@ type Specs struct {
 	rawLines  int
 	typeInv   map[string][]Clause // type key -> invariant clauses over "v"
 	lemmas    []*Lemma
+	generated []string
 }
 
 type Lemma struct {
@@ -138,6 +141,7 @@ func loadSpecs(w *World, trustedDir string) *Specs {
 		s.parseFile(f, false)
 	}
 	s.files = append(tf, files...)
+	s.addGeneratedCopyContracts(w)
 	return s
 }
 
